@@ -361,6 +361,125 @@ fn case<G: CurveTag>(bytes: &[u8], col: &mut Collector, max_gates: usize, large:
     finish(col, &prog, &shape, true)
 }
 
+
+/// Every draw of one fixed circuit with more than 64 gates in each phase is probed (in
+/// parallel): masking vectors of long phases must be fresh draws too.
+fn full_probe_large<G: CurveTag>(n1: usize, n2: usize, col: &mut Collector) -> Vec<Failure> {
+    use crate::program::{Op, Program, Sc, Var};
+    use crate::scalars::ScalarSpec;
+    let mut ops = vec![Op::Commit { v: ScalarSpec::Small(3), blind: ScalarSpec::Rand(8) }];
+    for i in 0..n1 {
+        ops.push(Op::AllocMul { l: Sc::C(ScalarSpec::Small(1 + i as u64)), r: Sc::C(ScalarSpec::Rand(i as u64)) });
+    }
+    ops.push(Op::Constrain { lc: vec![(Var::O(0), Sc::C(ScalarSpec::One)), (Var::Com(0), Sc::C(ScalarSpec::Small(2)))], err: None, base: None });
+    let mut body = vec![Op::Challenge { label: 0 }];
+    for j in 0..n2 {
+        body.push(Op::AllocMul { l: Sc::MulReg(ScalarSpec::Small(1 + j as u64), 0), r: Sc::C(ScalarSpec::Small(2 + j as u64)) });
+    }
+    ops.push(Op::Closure(body));
+    let prog = Program { curve: G::CURVE, tlabel: 0, pre: vec![], ops, owned: false, cap_p: Cap::Big, cap_v: Cap::Big, party_cap: 1, seed: 909, pc: 0 };
+    let n = n1 + n2;
+    let pj = |s: String| -> Value { json!({"large_circuit_gates": [n1, n2], "curve": G::CURVE.name(), "at": s}) };
+    let p0 = run_prover::<G>(&prog, &ProveOpts { record: true, ..Default::default() });
+    let Some(proof0) = p0.proof.as_ref() else { return vec![] };
+    let m0 = ProofMirror::from_proof(proof0);
+    let Some(draws) = decode_draws::<Fr<G>>(&rng_stream(&p0.log)) else {
+        col.note("large circuit: RNG stream does not decode (not evaluated)");
+        return vec![];
+    };
+    let Some(base_script) = encode_draws(&draws) else { return vec![] };
+    let base = run_prover::<G>(&prog, &ProveOpts { script: Some(base_script), ..Default::default() });
+    if base.bytes != p0.bytes {
+        col.note("large circuit: scripted replay does not reproduce the proof (not evaluated)");
+        return vec![];
+    }
+    let idx: Vec<usize> = (0..draws.len()).collect();
+    let results: std::sync::Mutex<Vec<(usize, Option<Role>)>> = std::sync::Mutex::new(vec![]);
+    let o = crate::runner::enumerate("c09/full-probe-large", &idx, &|j| vec![*j as u8], &|j, _c| {
+        let pc = prog_pc::<G>(&prog);
+        let gens = bp_gens::<G>(256, 1);
+        let gv: Vec<G> = gens.G(n, 1).cloned().collect();
+        let hv: Vec<G> = gens.H(n, 1).cloned().collect();
+        let mut d2 = draws.clone();
+        d2[*j] += Fr::<G>::one();
+        let Some(script) = encode_draws(&d2) else { return Ok(()) };
+        let p = run_prover::<G>(&prog, &ProveOpts { script: Some(script), ..Default::default() });
+        let Some(pf) = p.proof.as_ref() else { return Ok(()) };
+        let mj = ProofMirror::from_proof(pf);
+        let groups: [&[usize]; 3] = [&[0, 1, 2], &[3, 4, 5], &[6, 7, 8, 9, 10]];
+        let mut hit: Option<Vec<usize>> = None;
+        for g in groups {
+            let changed: Vec<usize> = g.iter().copied().filter(|i| m0.points()[*i] != mj.points()[*i]).collect();
+            if !changed.is_empty() {
+                hit = Some(changed);
+                break;
+            }
+        }
+        let role = match hit {
+            None => None,
+            Some(ch) if ch.len() != 1 => {
+                return Err(Failure::new("C09:draw-feeds-several-commitments", format!("large circuit: RNG draw #{} changes {:?} at once", j, ch.iter().map(|i| POINT_NAMES[*i]).collect::<Vec<_>>()), pj(format!("probe {}", j))))
+            }
+            Some(ch) => {
+                let f = ch[0];
+                let diff = (mj.points()[f].into_group() - m0.points()[f].into_group()).into_affine();
+                let gen = if diff == pc.B_blinding {
+                    Some(Gen::Blinding)
+                } else {
+                    (0..n).find_map(|i| if diff == gv[i] { Some(Gen::G(i)) } else if diff == hv[i] { Some(Gen::H(i)) } else { None })
+                };
+                match gen {
+                    Some(g) => Some((f, g)),
+                    None => {
+                        return Err(Failure::new(
+                            format!("C09:draw-not-a-single-generator:{}", POINT_NAMES[f]),
+                            format!("large circuit ({}+{} gates): adding 1 to RNG draw #{} changes {} by something other than exactly one generator (a masking entry is shared between positions)", n1, n2, j, POINT_NAMES[f]),
+                            pj(format!("probe {}", j)),
+                        ))
+                    }
+                }
+            }
+        };
+        results.lock().unwrap().push((*j, role));
+        Ok(())
+    });
+    col.evals_add(o.stats.evals);
+    let mut fails: Vec<Failure> = o.found.into_iter().map(|f| f.failure).collect();
+    if !fails.is_empty() {
+        return fails;
+    }
+    // bijection over the required roles
+    let roles = results.into_inner().unwrap();
+    let mut count: BTreeMap<Role, usize> = BTreeMap::new();
+    for (_, r) in &roles {
+        if let Some(r) = r {
+            *count.entry(*r).or_insert(0) += 1;
+        }
+    }
+    let mut required: Vec<Role> = vec![(0, Gen::Blinding), (1, Gen::Blinding), (2, Gen::Blinding), (3, Gen::Blinding), (4, Gen::Blinding), (5, Gen::Blinding)];
+    for i in 0..n {
+        let f = if i < n1 { 2 } else { 5 };
+        required.push((f, Gen::G(i)));
+        required.push((f, Gen::H(i)));
+    }
+    for t in 6..11 {
+        required.push((t, Gen::Blinding));
+    }
+    for r in &required {
+        if count.get(r).copied().unwrap_or(0) != 1 {
+            fails.push(Failure::new(
+                format!("C09:role-without-fresh-draw:{}", POINT_NAMES[r.0]),
+                format!("large circuit ({}+{} gates): {} draw(s) feed {} along {:?} (exactly one fresh draw required)", n1, n2, count.get(r).copied().unwrap_or(0), POINT_NAMES[r.0], r.1),
+                pj("roles".into()),
+            ));
+            break;
+        }
+    }
+    col.class("large:full-probe");
+    col.nontrivial(crate::runner::fp_of(&(G::CURVE, n1, n2, "full-probe")));
+    fails
+}
+
 fn finish(col: &mut Collector, prog: &crate::program::Program, shape: &crate::program::Shape, probed: bool) -> Result<(), Failure> {
     if probed {
         col.class("probed");
@@ -416,6 +535,18 @@ pub fn run(tier: &str, seed: u64) -> i32 {
         let subl = format!("c09/{}/large", c.name());
         let nl = super::scale(tier, 16, 120);
         rep.outcome.merge(search(&subl, seed, nl, 900, &|b, col| dispatch(&subl, b, col)));
+    }
+    // one fixed circuit with more than 64 gates in each phase, every draw probed
+    if rep.outcome.found.is_empty() {
+        let curves: Vec<Curve> = if tier == "thorough" { Curve::ALL.to_vec() } else { vec![Curve::ALL[(seed % 3) as usize]] };
+        for c in curves {
+            let mut col = Collector::default();
+            let fails = with_curve!(c, G => full_probe_large::<G>(70, 66, &mut col));
+            rep.outcome.stats.merge(col);
+            for f in fails {
+                rep.outcome.found.push(crate::runner::Found { failure: f, bytes: None, sub: "c09/full-probe-large".into() });
+            }
+        }
     }
     for (c, f) in [("probed", 0.5), ("second-phase-gates", 0.1), ("zero-gates", 0.03), ("with-commitments", 0.3), ("full-algebraic-opening(padded=1)", 0.05), ("blinding-scalars-recomputed", 0.5)] {
         rep.required_classes.push((c.to_string(), f));
